@@ -143,7 +143,7 @@ impl NetProbe for LiveProbe {
         // token expiry on the client side
         for (i, cc) in cfg.clients.iter().enumerate() {
             if let Some(c) = sim.clients[i].as_ref() {
-                let elapsed_s = (sim.client_now_ms[i] - cc.start_tick as u64 * cfg.dt_ms) / 1000;
+                let elapsed_s = (sim.client_now_ms[i] - cfg.epoch_s * 1000 - cc.start_tick as u64 * cfg.dt_ms) / 1000;
                 if c.is_connecting() && cc.silent_from.is_none() && elapsed_s > cc.expire + 1 && cc.addr_list.len() == 1 {
                     return Err(Violation::new(
                         "C18/client-keeps-connecting-after-token-expiry",
@@ -322,6 +322,71 @@ pub fn scenarios(tier: Tier) -> Vec<NetScenario> {
         c.fates = vec![NFate::Ok, NFate::Drop, NFate::Dup, NFate::Delay1];
         v.push(c);
     }
+    // scale class: a token with the maximum of 32 addresses, only the last one answers (time-out 1 s per address)
+    {
+        let mut cl = ClientCfg::new(1);
+        cl.timeout = 1;
+        cl.expire = 120;
+        cl.addr_list = (1..32).chain(std::iter::once(0)).collect();
+        let mut c = SimCfg::base("token with 32 addresses, only the last one answers, timeout=1s", vec![cl]);
+        c.server_addrs = (0..32).map(server_addr).collect();
+        c.alive = (0..32).map(|k| k == 0).collect();
+        c.fault_from = 150;
+        c.horizon = 165;
+        c.tail = 16;
+        c.fates = vec![NFate::Ok, NFate::Drop];
+        v.push(c);
+    }
+    // all 32 listed addresses stay silent: the client gives up in an orderly way (no panic, disconnected with a reason)
+    {
+        let mut cl = ClientCfg::new(1);
+        cl.timeout = 1;
+        cl.expire = 120;
+        cl.addr_list = (1..33).collect();
+        let mut c = SimCfg::base("token with 32 addresses, none answers, timeout=1s", vec![cl]);
+        c.server_addrs = (0..33).map(server_addr).collect();
+        c.alive = (0..33).map(|k| k == 0).collect();
+        c.fault_from = 0;
+        c.horizon = 0;
+        c.tail = 180;
+        c.fates = vec![NFate::Ok];
+        v.push(c);
+    }
+    // responses lost for 1.25 s after the challenge, then the session confirmed, then 1 s without anything from the
+    // server (less than the 2 s time-out): the client's time-out period counts from the last authentic datagram
+    for s0 in [6u32, 7, 8] {
+        let mut cl = ClientCfg::new(1);
+        cl.timeout = 2;
+        let mut c = SimCfg::base(&format!("responses lost for 1.25 s, late confirmation, then 1 s of server silence from tick {} (time-out 2 s)", s0), vec![cl]);
+        c.c2s_blackout_window = Some((1, 6));
+        c.s2c_blackout_window = Some((s0, s0 + 4));
+        c.fault_from = s0 + 4;
+        c.horizon = s0 + 7;
+        c.tail = 10;
+        c.fates = vec![NFate::Ok, NFate::Drop, NFate::Delay1];
+        v.push(c);
+    }
+    // scale class: the same sessions on a server that has been up for 100 days / for more than 2^32 seconds
+    {
+        let pick: Vec<SimCfg> = v
+            .iter()
+            .filter(|c| {
+                c.name == "handshake 1 client dt=250ms"
+                    || c.name == "client silent after tick 6, timeout=2s dt=250ms, attacker on path"
+                    || c.name == "server silent after tick 6, timeout=2s"
+                    || c.name == "challenge never arrives, token valid 4 s"
+            })
+            .cloned()
+            .collect();
+        for epoch in [8_640_000u64, (1u64 << 32) + 7] {
+            for c in &pick {
+                let mut c = c.clone();
+                c.name = format!("{} [server uptime {} s]", c.name, epoch);
+                c.epoch_s = epoch;
+                v.push(c);
+            }
+        }
+    }
     v.into_iter().map(|cfg| NetScenario { cfg, probe: probe as fn() -> Box<dyn NetProbe> }).collect()
 }
 
@@ -331,7 +396,132 @@ pub fn run(tier: Tier) -> i32 {
     rep.assume("authentic = first delivery of a genuine keep-alive / payload (or the connecting response) of the honest peer; tails are long enough for 4 handshake legs at the 250 ms send rate plus one time-out per silent address; time-outs >= 2 s in handshake-fault scenarios so that <= 3 losses cannot exhaust them");
     let sc = scenarios(tier);
     run_net_scenarios(&mut rep, "m2", &sc, tier.pick(2, 4), tier.pick(120.0, 3000.0));
+    // scale class: thousands of half-open sessions (the pending table holds at most 4096)
+    {
+        let sizes: Vec<usize> = tier.pick(vec![300, 4095, 4096, 4100], vec![255, 256, 257, 1024, 4095, 4096, 4097, 5000]);
+        let res = crate::explore::par_cases(sizes.len(), |i| pending_scale_case(sizes[i]));
+        let mut steps = 0u64;
+        for (i, r) in res.into_iter().enumerate() {
+            match r {
+                Ok(n) => steps += n,
+                Err(v) => rep.violation("many-half-open", v, J::obj().set("kind", J::s("many-half-open")).set("n", J::i(sizes[i] as u64))),
+            }
+        }
+        rep.add_sweep("many-half-open", sizes.len() as u64, sizes.len() as u64, sizes.len() as u64, vec![format!("{:?} half-open sessions (valid tokens, 10 s to live): the first and the last admitted one still complete, all vanish at token expiry, an honest client connects afterwards ({} library calls)", sizes, steps)]);
+        rep.transitions += steps;
+    }
     rep.finish()
+}
+
+/// `n` half-open handshakes from distinct addresses on a 4-slot server.
+pub fn pending_scale_case(n: usize) -> Result<u64, Violation> {
+    use crate::nc::{self, make_token_wide, new_client, new_server, wide_addr, TokenSpec};
+    use std::time::Duration;
+    let public = vec![server_addr(0)];
+    let mut server = new_server(4, public.clone(), Duration::ZERO);
+    let dt = Duration::from_millis(250);
+    let bad = |sig: &str, msg: String| Violation::new(format!("C18/many-half-open/{}", sig), format!("{} half-open sessions: {}", n, msg));
+    let mk = |k: usize, expire: u64| {
+        let mut sp = TokenSpec::new(50_000 + k as u64, 0, public.clone());
+        sp.expire = expire;
+        sp.timeout = 5;
+        make_token_wide(&sp, k as u32)
+    };
+    let mut steps = 0u64;
+    let mut held: Vec<(usize, renetcode::NetcodeClient)> = vec![];
+    let mut admitted = 0usize;
+    for k in 0..n {
+        let mut c = new_client(Duration::ZERO, &mk(k, 10));
+        let (req, _) = nc::cli_update(&mut c, dt)?.ok_or_else(|| bad("client-silent", format!("client {}", k)))?;
+        let r = nc::srv_process(&mut server, wide_addr(k as u32), &req)?;
+        steps += 2;
+        match r.reply() {
+            Some((to, bytes)) => {
+                if to != wide_addr(k as u32) {
+                    return Err(bad("reply-to-wrong-address", format!("challenge for client {} went to {}", k, to)));
+                }
+                admitted += 1;
+                nc::cli_process(&mut c, bytes)?;
+                if k == 0 || k + 1 == n.min(4096) {
+                    held.push((k, c));
+                }
+            }
+            None => {
+                if k < 4096 {
+                    return Err(bad("valid-request-unanswered", format!("request number {} got no challenge although only {} sessions are half-open", k + 1, admitted)));
+                }
+            }
+        }
+    }
+    let snap = server.verif_snapshot();
+    if snap.pending.len() != admitted {
+        return Err(bad("pending-count", format!("{} challenges were issued, {} half-open sessions exist", admitted, snap.pending.len())));
+    }
+    // a half-open client whose challenge was lost retransmits its request: it is answered again
+    for (k, _) in held.iter() {
+        let mut c2 = new_client(Duration::ZERO, &mk(*k, 10));
+        let (req, _) = nc::cli_update(&mut c2, dt)?.ok_or_else(|| bad("client-silent", format!("client {}", k)))?;
+        let r = nc::srv_process(&mut server, wide_addr(*k as u32), &req)?;
+        steps += 2;
+        if r.reply().is_none() {
+            return Err(bad("retransmitted-request-unanswered", format!("half-open client {} repeated its request (its challenge may have been lost) and got {}", k, r.kind())));
+        }
+    }
+    // the first and the last admitted one complete their handshake while the table is crowded
+    server.update(Duration::from_secs(1));
+    for (k, c) in held.iter_mut() {
+        let (resp, _) = nc::cli_update(c, dt)?.ok_or_else(|| bad("client-silent", format!("client {} has no response to send", k)))?;
+        let r = nc::srv_process(&mut server, wide_addr(*k as u32), &resp)?;
+        steps += 2;
+        match &r {
+            SR::Connected { client_id, .. } if *client_id == 50_000 + *k as u64 => {}
+            other => return Err(bad("room-but-not-connected", format!("half-open client {} answered its challenge and got {}", k, other.kind()))),
+        }
+        if let Some((_, bytes)) = r.reply() {
+            nc::cli_process(c, bytes)?;
+        }
+        if !c.is_connected() {
+            return Err(bad("room-but-not-connected", format!("client {} not connected on its side", k)));
+        }
+    }
+    // token expiry: every half-open session is gone, connected ones stay (they keep talking)
+    for _ in 0..11 {
+        server.update(Duration::from_secs(1));
+        for (k, c) in held.iter_mut() {
+            let id = 50_000 + *k as u64;
+            if let SR::Send { bytes, .. } = nc::srv_update_client(&mut server, id)? {
+                nc::cli_process(c, &bytes)?;
+            }
+            if let Some((p, _)) = nc::cli_update(c, Duration::from_secs(1))? {
+                nc::srv_process(&mut server, wide_addr(*k as u32), &p)?;
+            }
+            steps += 3;
+        }
+    }
+    let snap = server.verif_snapshot();
+    if !snap.pending.is_empty() {
+        return Err(Violation::new(
+            "C18/half-open-session-outlives-token",
+            format!("{} half-open sessions: {} are still there at server time {:?}, their tokens expired at 10 s", n, snap.pending.len(), snap.current_time),
+        ));
+    }
+    for (k, c) in held.iter() {
+        if !c.is_connected() || !server.is_client_connected(50_000 + *k as u64) {
+            return Err(bad("live-session-lost", format!("client {} kept exchanging keep-alives but is no longer connected", k)));
+        }
+    }
+    // an honest newcomer connects afterwards
+    let k = n + 10;
+    let mut c = new_client(Duration::from_secs(12), &{
+        let mut sp = TokenSpec::new(50_000 + k as u64, 0, public.clone());
+        sp.create = 12;
+        sp.expire = 60;
+        make_token_wide(&sp, k as u32)
+    });
+    if !nc::connect(&mut server, &mut c, wide_addr(k as u32))? {
+        return Err(bad("room-but-not-connected", "an honest client with a fresh token cannot connect after the half-open sessions expired".to_string()));
+    }
+    Ok(steps + 6)
 }
 
 pub fn replay(j: &J) -> i32 {
@@ -339,5 +529,19 @@ pub fn replay(j: &J) -> i32 {
         Some("thorough") => Tier::Thorough,
         _ => Tier::Quick,
     };
+    if j.get("kind").and_then(|k| k.as_str()) == Some("many-half-open") {
+        let n = j.get("n").and_then(|x| x.as_i()).unwrap_or(4096) as usize;
+        println!("{} half-open sessions on a 4-slot server", n);
+        return match pending_scale_case(n) {
+            Err(v) => {
+                println!("RESULT: violation {} — {}", v.signature, v.message);
+                1
+            }
+            Ok(_) => {
+                println!("RESULT: no violation");
+                0
+            }
+        };
+    }
     replay_net(&scenarios(tier), j)
 }
